@@ -12,6 +12,8 @@ BASE = {
     "apps": [{"id": env.APP_ACCT, "acct": True, "peers": [0, 1]}, {"id": env.APP_AUTH, "auth": True, "peers": [0]}],
 }
 MONS = [monitors.GateMonitor, monitors.AnswerMonitor]
+SCTP_MODELS = ("inbound-one-connection", "inbound-traffic-vs-timeout", "outbound-ok-peer0", "outbound-inprogress-peer1", "stop-while-awaiting-the-CEA",
+               "two-ready-peers-and-one-awaiting-CEA")
 
 
 def models(tier):
@@ -151,6 +153,9 @@ def run(tier):
                              time_cap=900 if tier == "thorough" else 100)
     for k in tot:
         tot[k] = max(tot[k], t2[k]) if k == "max_depth" else tot[k] + t2[k]
+    # the same gate over SCTP: listen / accept / connectx / sctp_send are separate branches of the node
+    t3 = monitors.run_models(rep, monitors.sctp_copies(ms, SCTP_MODELS), depth - 1, time_cap=600 if tier == "thorough" else 45)
+    monitors.merge_tot(tot, t3)
     rep.cov.update({"states": tot["states"], "transitions": tot["transitions"], "traces_validated_against_impl": tot["transitions"] + tot["plain_transitions"] + sched_execs,
                     "max_depth": tot["max_depth"], "states_without_dedup": tot["plain_states"],
                     "explanation": "explicit-state BFS over histories of CER/CEA variants, bursts, base and application traffic, clock ticks, on inbound "
